@@ -47,6 +47,8 @@ def build_coq():
         sh('coq_makefile -f _CoqProject -o Makefile', cwd=COQ)
     # translator: the documentation table of the repository under check -> Spec/DocTable.v (C08)
     sh('python3 %s %s %s' % (os.path.join(VERIF, 'bin', 'gen_doctable.py'), REPO, os.path.join(COQ, 'Spec', 'DocTable.v')), check=False)
+    # translator: the renderers' name tables (render.go, flow.pb.go) -> Spec/RenderTables.v (C13)
+    sh('python3 %s %s %s' % (os.path.join(VERIF, 'bin', 'gen_rendertables.py'), REPO, os.path.join(COQ, 'Spec', 'RenderTables.v')), check=False)
     p = sh('timeout 3000 make -j%d' % NPROC, cwd=COQ, timeout=3100, check=False)
     return p.returncode == 0, p.stdout
 
